@@ -25,8 +25,8 @@ def to_text(ident):
     return "%s (version %02d)" % (name, version)
 
 
-NUM = re.compile(r"(\d{5})-(\d{4})-(\d{4})-(\d{2})(?: (.*))?", re.S)
-NAMEONLY = re.compile(r"(.*) \(version (\d{2})\)", re.S)
+NUM = re.compile(r"([0-9]{5})-([0-9]{4})-([0-9]{4})-([0-9]{2})(?: (.*))?", re.S)    # ASCII digits: the identifier scheme is numeric text, not any Unicode decimal
+NAMEONLY = re.compile(r"(.*) \(version ([0-9]{2})\)", re.S)
 
 
 def parse_strict(text):
